@@ -217,10 +217,10 @@ func planClusterNonPushdown(opts *Opts, query *sql.Query) (core.FlatRowSource, e
 	sqlString := query.SQL
 	crosstabString := concatForCrosstab(sqlString)
 	lowerSQL := strings.ToLower(sqlString)
-	indexOfGroupBy := strings.Index(lowerSQL, "group by ")
-	indexOfHaving := strings.Index(lowerSQL, "having ")
-	indexOfOrderBy := strings.Index(lowerSQL, "order by ")
-	indexOfLimit := strings.Index(lowerSQL, "limit ")
+	indexOfGroupBy := indexOfClause(lowerSQL, "group by ")
+	indexOfHaving := indexOfClause(lowerSQL, "having ")
+	indexOfOrderBy := indexOfClause(lowerSQL, "order by ")
+	indexOfLimit := indexOfClause(lowerSQL, "limit ")
 	if indexOfGroupBy > 0 {
 		sqlString = sqlString[:indexOfGroupBy]
 	} else if indexOfHaving > 0 {
@@ -320,6 +320,39 @@ func planClusterNonPushdown(opts *Opts, query *sql.Query) (core.FlatRowSource, e
 	}
 
 	return addOrderLimitOffset(flat, query), nil
+}
+
+// indexOfClause returns the index of the first occurrence of the given
+// (lower-case) clause keyword in lowerSQL that belongs to the outermost query:
+// occurrences inside string literals, quoted identifiers or parentheses (a
+// subquery in the WHERE clause) are skipped. It returns -1 if there is none.
+func indexOfClause(lowerSQL string, clause string) int {
+	depth := 0
+	quote := byte(0)
+	for i := 0; i < len(lowerSQL); i++ {
+		c := lowerSQL[i]
+		if quote != 0 {
+			if c == '\\' {
+				i++
+			} else if c == quote {
+				quote = 0
+			}
+			continue
+		}
+		switch c {
+		case '\'', '"', '`':
+			quote = c
+		case '(':
+			depth++
+		case ')':
+			depth--
+		default:
+			if depth == 0 && strings.HasPrefix(lowerSQL[i:], clause) {
+				return i
+			}
+		}
+	}
+	return -1
 }
 
 func planAsIfLocal(opts *Opts, sqlString string) (core.FlatRowSource, error) {
